@@ -46,6 +46,16 @@ def affine_about(M, p, c0):
     return [R(it[4 * k]) * d[0] + R(it[4 * k + 1]) * d[1] + R(it[4 * k + 2]) * d[2] + R(it[4 * k + 3]) + c0[k] for k in range(3)]
 
 
+def projective_about(M, p, c0):
+    """the stated map of an ARBITRARY homogeneous 4x4 matrix about the centre c0: with d = p - c0 and h = M . (d, 1) the image is
+    q = c0 + h[0:3] / h[3].  Returns (num, w): the three numerators h[0:3] and the homogeneous coordinate w = h[3]; the clause is
+    w != 0 and (q - c0) * w = num.  For an affine last row (0, 0, 0, 1) this is `affine_about` (lemma
+    call-postcondition-on-an-affine-matrix-is-the-affine-map)."""
+    d = [p[k] - c0[k] for k in range(3)]
+    h = act(M, d)
+    return h[:3], h[3]
+
+
 # the STATED maps, one source for the builders' / constructors' / transform classmethods' postconditions and for the lemmas:
 # prm = dict of z3 reals (tx.. / sx.. / c, s = cos, sin of the angle / nx, ny, nz = unit axis), p = 3 z3 reals
 FORMS = {
@@ -169,6 +179,26 @@ def _first_root_pos(E, t):
     return r
 
 
+def name_root_as_the_code_does(E, r, formula):
+    """`r` is the ghost position of the first root (fresh, defined by _first_root_pos).  When the path condition PROVES it equal to an
+    integer constant the code's own search produced (np.nonzero(...)[0][0] / argmax: `argmax!..`), the formula is rewritten with that
+    constant -- only a term the path condition proves EQUAL is substituted (cf. ext_C12.under_pc), so the clause keeps its meaning; the
+    polynomial normal forms of the code's value and of the stated map then coincide syntactically."""
+    seen, stack, cands = set(), list(E.pc), {}
+    while stack:
+        x = stack.pop()
+        if x.get_id() in seen:
+            continue
+        seen.add(x.get_id())
+        if z3.is_const(x) and z3.is_int(x) and x.decl().kind() == z3.Z3_OP_UNINTERPRETED and x.decl().name().startswith("argmax"):
+            cands[x.decl().name()] = x
+        stack.extend([x.body()] if z3.is_quantifier(x) else x.children())
+    for nm in sorted(cands):
+        if not E.feasible(r != cands[nm], full=True):
+            return z3.substitute(formula, (r, cands[nm]))
+    return formula
+
+
 def tree_unchanged(t, t0):
     """frame clause "the input tree is untouched": `t` (the object as it is now) against its entry snapshot `t0`:
     same ndata keys, every column of the same length with the same entries, source / comments / names as they were"""
@@ -207,6 +237,10 @@ def _M3(tm):
     return [[R(it[4 * r + c]) for c in range(4)] for r in range(3)]
 
 
+class _Centre(list):
+    """the three coordinates of a centre; `.root` = the ghost position of the root row they were read from"""
+
+
 AFF = {}  # clause builders shared with the transform classmethods below
 
 
@@ -229,7 +263,25 @@ def register_affine(Rg):
         o.frozen = True
         return o
 
-    affine_pre = ("matrix-is-affine", lambda E, v, o: (lambda it: z3.And(R(it[12]) == 0, R(it[13]) == 0, R(it[14]) == 0, R(it[15]) == 1))(v["self"].fields["tm"].items))
+    def centre_of(E, x0, center):
+        """the stated centre: the origin, or the coordinates of the first root row ('root' and 'soma' are the same branch of __call__)"""
+        if center == "origin":
+            return [z3.RealVal(0)] * 3
+        r = _first_root_pos(E, x0)
+        out = _Centre(z3.Select(col(x0, c).arr, r) for c in "xyz")
+        out.root = r
+        return out
+
+    def w_nonzero_about_centre(E, v, o):
+        """ANY homogeneous 4x4 matrix (not only last row (0,0,0,1): the same map written with a common factor, a perspective row ...) whose
+        homogeneous coordinate does not vanish on the nodes, taken relative to the stated centre (numpy would give inf / nan there)"""
+        x0, slf = v["x"], v["self"]
+        c0 = centre_of(E, x0, "origin" if slf.fields["center"] == "origin" else "root")
+        i = z3.Int(fresh_name("i"))
+        _, w = projective_about(slf.fields["tm"], [z3.Select(col(x0, c).arr, i) for c in "xyz"], c0)
+        return z3.ForAll([i], z3.Implies(z3.And(i >= 0, i < nof(x0)), w != 0))
+
+    affine_pre = ("homogeneous-coordinate-nonzero-at-every-node-(relative-to-the-stated-centre)", w_nonzero_about_centre)
     has_root = ("has-a-root", lambda E, v, o: (lambda t, j: z3.Exists([j], z3.And(j >= 0, j < nof(t), z3.Select(col(t, "pid").arr, j) == -1)))(v["x"], z3.Int(fresh_name("j"))))
 
     def moved(center):
@@ -240,15 +292,26 @@ def register_affine(Rg):
             n = nof(x0)
             p = [z3.Select(col(x0, c).arr, i) for c in "xyz"]
             q = [z3.Select(col(y, c).arr, i) for c in "xyz"]
-            if center == "origin":
-                c0 = [z3.RealVal(0)] * 3
-            else:
-                r = _first_root_pos(E, x0)
-                c0 = [z3.Select(col(x0, c).arr, r) for c in "xyz"]
-            # the stated map about the stated centre: q = A (p - c) + b + c, so the centre
-            # moves by the matrix' own translation part only (fixed for scaling / rotation)
-            exp = affine_about(o["self"].fields["tm"], p, c0)
-            return z3.ForAll([i], z3.Implies(z3.And(i >= 0, i < n), z3.And(*[q[k] == exp[k] for k in range(3)])))
+            c0 = centre_of(E, x0, center)
+            root = getattr(c0, "root", None)
+            # the stated map about the stated centre, for the stated 4x4 matrix whatever its last row: q = c + (M (p - c, 1))[0:3] / w with
+            # w = (M (p - c, 1))[3].  For an affine last row (w = 1) this reads q = A (p - c) + b + c: the centre moves by the matrix' own
+            # translation part only (fixed for scaling / rotation)
+            num, w = projective_about(o["self"].fields["tm"], p, c0)
+
+            def axis(k):
+                # (q - c) * w = num.  Where the code's value is a quotient n' / d', the clause is handed over as d' != 0 and the polynomial
+                # identity (n' - c d') w - num d' = 0 in sum-of-monomials normal form (together they imply the stated equation; an
+                # equivalence-preserving rewrite under d' != 0, cf. `chain_moved`), else as it stands
+                t = z3.simplify(q[k])
+                if z3.is_app_of(t, z3.Z3_OP_DIV):
+                    n_, d_ = t.children()
+                    return z3.And(d_ != 0, z3.simplify((n_ - c0[k] * d_) * w - num[k] * d_, som=True) == 0)
+                return (q[k] - c0[k]) * w == num[k]
+
+            if root is not None:
+                num, w, c0 = [name_root_as_the_code_does(E, root, z) for z in num], name_root_as_the_code_does(E, root, w), [name_root_as_the_code_does(E, root, z) for z in c0]
+            return z3.ForAll([i], z3.Implies(z3.And(i >= 0, i < n), z3.And(w != 0, *[axis(k) for k in range(3)])))
 
         return f
 
@@ -496,7 +559,7 @@ def register_ctors(Rg):
         if r is None:
             return True
         q = xyz(v["result"], r)
-        return z3.And(*[z3.simplify(q[k] - c0[k], som=True) == 0 for k in range(3)])
+        return z3.And(*[z3.simplify(name_root_as_the_code_does(E, r, q[k] - c0[k]), som=True) == 0 for k in range(3)])
 
     def offsets_scaled(E, v, o):
         """scaling multiplies root-relative offsets per axis (either centre)"""
@@ -547,6 +610,17 @@ def lemmas():
         f, g = (lambda p, _f=form: FORMS[_f](prm, p)), (lambda p, _f=form: FORMS[_f](inv_prm, p))
         out.append((f"{short[form]}-then-inverse-is-identity", side[form], eq3(g(f(P)), P)))
     out.append(("rodrigues-fixes-its-axis", circ + unit, eq3(FORMS["rodrigues"](prm, (nx, ny, nz)), (nx, ny, nz))))
+    # ---- 0. AffineTransform.__call__ is stated for ANY homogeneous matrix (`projective_about`); on a matrix with the affine last row
+    # (0, 0, 0, 1) -- every matrix of the builders -- its postcondition IS the affine form `affine_about` the lemmas below compose with
+    M0 = [z3.Real(f"m{r}{k}") for r in range(4) for k in range(4)]
+    num0, w0 = projective_about(M0, P, list(C0))
+    out.append(("call-postcondition-on-an-affine-matrix-is-the-affine-map", [last_row_affine(M0), w0 != 0] + [(Q[k] - C0[k]) * w0 == num0[k] for k in range(3)],
+                eq3(Q, affine_about(M0, P, list(C0)))))
+    # the same map written with a common factor (lambda * M, lambda != 0) is the same point map: what "homogeneous" means
+    lam_ = z3.Real("lam")
+    num1, w1 = projective_about([lam_ * m for m in M0], P, list(C0))
+    out.append(("a-common-factor-of-the-matrix-does-not-change-the-map", [lam_ != 0, w0 != 0] + [(Q[k] - C0[k]) * w0 == num0[k] for k in range(3)],
+                z3.And(w1 != 0, *[(Q[k] - C0[k]) * w1 == num1[k] for k in range(3)])))
     # ---- A. over the postconditions: M = 16 arbitrary reals (the matrix of a transform object).  The constructor's postcondition
     # (`acts_as` at the offset of a node from the centre) and the call's postcondition (`affine_about`) compose to the EFFECTIVE MAP
     # q = F(p - c0) + c0 -- which is also the postcondition proved for the real chain X.transform(x, ...) = X(...)(x)
